@@ -65,3 +65,18 @@ Fixpoint failing {A} (f : A -> bool) (i : nat) (l : list A) : list nat :=
 
 Definition report (cs : list case) : list nat * list nat * list (list nat) :=
   (failing corr 0 cs, failing oracle 0 cs, map branches cs).
+
+(* the PID per key that the activations of a run returned (the first one, should a key be
+   activated twice): what the driver computes from the implementation's results as [c_expect] *)
+Fixpoint expect_from (e : amap) (ops : list op) (rs : list res) : amap :=
+  match ops, rs with
+  | o :: ops', r :: rs' =>
+      expect_from (match o, r with Act _ k _, RPid h => aadd k h e | _, _ => e end) ops' rs'
+  | _, _ => e
+  end.
+
+(* the case a model run makes *)
+Definition model_case (m nk : nat) (ops : list op) : case :=
+  let r := run m init ops in
+  {| c_m := m; c_nk := nk; c_ops := ops; c_res := map res_code (snd r);
+     c_expect := view_of (expect_from aempty ops (snd r)) nk; c_views := views m nk (fst r) |}.
